@@ -126,15 +126,46 @@ def bin_shim(x):
     return _real_bin(x)
 
 
+_INT_CODES = {"b": (1, True), "B": (1, False), "h": (2, True), "H": (2, False), "i": (4, True), "I": (4, False),
+              "l": (4, True), "L": (4, False), "q": (8, True), "Q": (8, False)}
+
+
 def unpack_shim(fmt, data):
-    if isinstance(data, (SBytes, SByteArray)) and not SBytes.of(data).is_concrete():
-        if fmt == ">f" and len(data) == 4:
-            u = sbytes.int_from_bytes(data, "big", signed=False)
-            return (SReal(_UF_F32(u.e)),)
-        raise Inconclusive(f"unpack({fmt!r}) on symbolic bytes")
-    if isinstance(data, (SBytes, SByteArray)):
-        data = SBytes.of(data).concrete()
-    return _struct.unpack(fmt, data)
+    if not isinstance(data, (SBytes, SByteArray)) or SBytes.of(data).is_concrete():
+        if isinstance(data, (SBytes, SByteArray)):
+            data = SBytes.of(data).concrete()
+        return _struct.unpack(fmt, data)
+    data = SBytes.of(data)
+    order, codes = "big", fmt
+    if fmt[:1] in "><!=@":
+        order = "little" if fmt[0] == "<" else "big"
+        codes = fmt[1:]
+        if fmt[0] in "=@":
+            raise Inconclusive(f"unpack({fmt!r}): native byte order on symbolic bytes")
+    if _struct.calcsize(fmt) != len(data):
+        raise _struct.error(f"unpack requires a buffer of {_struct.calcsize(fmt)} bytes")
+    out, pos = [], 0
+    for c in codes:
+        if c in _INT_CODES:
+            n, signed = _INT_CODES[c]
+            out.append(sbytes.int_from_bytes(data[pos:pos + n], order, signed=signed))
+            pos += n
+        elif c == "f":
+            u = sbytes.int_from_bytes(data[pos:pos + 4], order, signed=False)
+            pos += 4
+            if not isinstance(u, SInt):
+                out.append(_struct.unpack(">f", _real_int.to_bytes(u, 4, "big"))[0])
+            elif SBool((u.e / (2 ** 23)) % 256 == 255):
+                # IEEE-754 specials are real Python floats so that round()/int() behave (and raise) as in CPython
+                if SBool(u.e % (2 ** 23) == 0):
+                    out.append(_real_float("-inf") if SBool(u.e >= 2 ** 31) else _real_float("inf"))
+                else:
+                    out.append(_real_float("nan"))
+            else:
+                out.append(SReal(_UF_F32(u.e)))
+        else:
+            raise Inconclusive(f"unpack({fmt!r}) on symbolic bytes")
+    return tuple(out)
 
 
 # -- datetime ---------------------------------------------------------------------------------------------------
